@@ -6,6 +6,7 @@ from .. import harness as H
 from ..ref import http as refhttp
 
 LEVEL = 'exploration'
+TECHNIQUE = 'runtime monitoring: ground-truth message lists through an independent RFC 6455 encoder, event-list oracle + payload alias monitor on the simulated socket'
 BUDGET_S = {'quick': 30, 'thorough': 240}
 REQUIRED = {'all': ['oracle.messages_compared', 'oracle.alias_checks', 'exhaustive4.cases']}
 RULE = ('abstract message lists (ground truth) -> RFC 6455 reference encoder -> simulated socket -> real '
